@@ -3,8 +3,8 @@ package main
 import (
 	"bytes"
 	"fmt"
-	"strings"
 	gofs "io/fs"
+	"strings"
 
 	"github.com/hack-pad/hackpadfs"
 )
